@@ -227,6 +227,9 @@ pub mod utils;
 pub mod zonefile;
 pub mod zonetree;
 
+#[cfg(feature = "verif-hooks")]
+pub mod verif_hooks;
+
 #[cfg(feature = "unstable-new")]
 pub mod new;
 
